@@ -255,7 +255,8 @@ def execute(run, cases, tag="b0"):
                 d = json.loads(line)
             except ValueError:
                 continue
-            derive_log[d.get("struct")] = d
+            if d.get("stage") != "returned":
+                derive_log[d.get("struct")] = d
     for c in cases:
         cid = c["id"]
         run.evaluated()
